@@ -560,7 +560,7 @@ func checkC18(c *ctx) {
 			}
 		}
 		// the channel closed by another goroutine at an arbitrary moment (also between two writes)
-		trials := c.n(60, 1500)
+		trials := c.n(60, 250)
 		if c.proofBroken("tie_poll_discipline") {
 			trials = 8000
 		}
